@@ -54,14 +54,14 @@ states; a text lexeme may be delivered in two pieces). `SPanic` / the `must`-pan
 hit one of the model's explicit panic branches (a slice out of range, …); those runs are excluded by the
 hypothesis of the top-level statement. -/
 
-variable {κ : Type} {env : Env κ} {inpS inpW : Bytes} {δ : Nat} {K : Nat → κ → κ → Prop} {Loc : κ → Nat → Prop}
+variable {κ : Type} {env : Env κ} {inpS inpW : Bytes} {δ : Nat} {K : Nat → κ → κ → Prop} {Loc : κ → Nat → Nat → TextType → Prop}
 
 /-- **Actions.** One action of either machine maps related machines to related machines, with the
 validity flags transformed by `absAct`; the lexemes / hints handed to the sink correspond; the signals
 are equal (bookmark positions shifted by `δ`). A text debt `d` is repaid by `emit_text`. -/
 theorem C02_action_partial (F : Frame inpS inpW δ) (hops : OpsSim env.ops inpS inpW δ K Loc) (a : ActName) {d : Nat}
     {ab ab' : Ab} (habs : absAct a ab = some ab') {ms mw : M κ} (h : MRel δ d 0 ab .none ms mw)
-    (hK : K d ms.x.sink mw.x.sink) (hloc : 0 < d → Loc ms.x.sink (lexStart ms.r))
+    (hK : K d ms.x.sink mw.x.sink) (hloc : 0 < d → Loc ms.x.sink ms.x.prevConsumed (lexStart ms.r) ms.c.lastTextType)
     (hd : d = 0 ∨ a = .emitText ∨ a = .emitTextAndEof)
     (hin : readsInp a = true → (ms.c.nextPos ≤ inpS.length ∨ Closed inpS inpW δ)) :
     ActSim δ K ab' (qRequired a) (act env a inpS ms) (act env a inpW mw) :=
@@ -73,7 +73,7 @@ machines are related with the entry flags of the target state, otherwise the cur
 theorem C02_body_partial (F : Frame inpS inpW δ) (hops : OpsSim env.ops inpS inpW δ K Loc) (fs : FlagMap) (st : StateId)
     (loops : Bool) (b : Body) {d : Nat} {ab : Ab} (hok : bodyOk env.tbl fs st ab loops b = true)
     {ms mw : M κ}
-    (h : MRel δ d 0 ab .none ms mw) (hK : K d ms.x.sink mw.x.sink) (hloc : 0 < d → Loc ms.x.sink (lexStart ms.r))
+    (h : MRel δ d 0 ab .none ms mw) (hK : K d ms.x.sink mw.x.sink) (hloc : 0 < d → Loc ms.x.sink ms.x.prevConsumed (lexStart ms.r) ms.c.lastTextType)
     (hd : d = 0 ∨ ∃ s, b = .seq s ∧ StartsWithText s.calls)
     (hin : BodyIn inpS inpW δ ms.c.nextPos b) :
     BodySim δ K fs st loops ms.c (runBody env inpS b ms) (runBody env inpW b mw) :=
@@ -145,7 +145,7 @@ def unitOps : SinkOps Unit :=
   { handleTag := fun _ _ _ => ((), .ok .lex), handleNonTag := fun _ _ _ => ((), .ok ())
     startTagHint := fun _ _ _ => ((), .ok .lex), endTagHint := fun _ _ => ((), .ok .lex) }
 
-example (a b : Bytes) (n : Nat) : OpsSim unitOps a b n (fun d _ _ => d = 0) (fun _ _ => True) :=
+example (a b : Bytes) (n : Nat) : OpsSim unitOps a b n (fun d _ _ => d = 0) (fun _ _ _ _ => True) :=
   { tag := fun _ _ _ _ _ _ => Or.inr ⟨rfl, rfl⟩
     nonTag := fun _ _ _ _ _ _ => Or.inr ⟨rfl, rfl⟩
     text := fun _ _ _ d _ _ _ hd _ h0 => by omega
@@ -168,11 +168,11 @@ machines —, related machines and sinks, equal total consumed at a common break
 has at most run its enter actions (`stateFn mw0 = stateFn mw`). `eoi = true`: a common break of the two runs
 is reported as `LockOut` (possible only if the inputs end together); `eoi = false` (not last): every break of
 the split run is reported as `BreakOut`. -/
-theorem C02_step {κ : Type} {env : Env κ} {inpS inpW : Bytes} {δ : Nat} {K : Nat → κ → κ → Prop} {Loc : κ → Nat → Prop}
+theorem C02_step {κ : Type} {env : Env κ} {inpS inpW : Bytes} {δ : Nat} {K : Nat → κ → κ → Prop} {Loc : κ → Nat → Nat → TextType → Prop}
     (F : Frame inpS inpW δ) (hops : OpsSim env.ops inpS inpW δ K Loc) {fs : FlagMap}
     (hwf : WfChunkWith env.tbl fs = true) {d skip : Nat} (eoi : Bool) {ms mw : M κ}
     (hb : BRel env.tbl fs inpW δ d skip ms mw) (hK : K d ms.x.sink mw.x.sink)
-    (hloc : 0 < d → Loc ms.x.sink (lexStart ms.r))
+    (hloc : 0 < d → Loc ms.x.sink ms.x.prevConsumed (lexStart ms.r) ms.c.lastTextType)
     (hil : ms.c.isLast = true → Closed inpS inpW δ) (heoi : eoi = false → ms.c.isLast = false) :
     LockOut env.tbl fs inpW δ K Loc eoi (stateFn env inpS ms) (stateFn env inpW mw) ∨
     ((eoi = true → ¬ Closed inpS inpW δ) ∧ ∃ (x0 : Ctx κ) (mw0 : M κ),
